@@ -131,6 +131,20 @@ def run(chk):
     cbf = repo.func("OverlapWindowPlugin.cache_beyond", OVERLAP)
     sp = [n for n in walk_body(cbf.node) if isinstance(n, ast.Assign) and isinstance(n.value, ast.Subscript) and isinstance(n.value.value, ast.Call) and isinstance(n.value.value.func, ast.Attribute) and n.value.value.func.attr == "split"]
     chk.check(len(sp) == 1 and norm(sp[0].value.slice) == "1" and isinstance(kw(sp[0].value.value, "allow_early_split"), ast.Constant) and kw(sp[0].value.value, "allow_early_split").value is True and norm(kw(sp[0].value.value, "t")) == cbf.params[2], "C09.R4", cbf, sp[0] if sp else None, "cache does not keep the right part of an early split at the running split time", site_text="cache_beyond: cached[data] = chunk.split(t=prev_split, allow_early_split=True)[1]")
+    if len(sp) == 1:
+        il = enclosing(sp[0], (ast.For,))
+        ccfg = cfg_of(cbf)
+        okk = il is not None and isinstance(sp[0].targets[0], ast.Subscript) and norm(sp[0].targets[0].value) == cbf.params[3]
+        if okk:
+            ln = ccfg.node_of(il)
+            first = ccfg.nodes_of(il.body[0])
+            store = ccfg.node_of(sp[0])
+            inside = {id(x) for st_ in il.body for x in ast.walk(st_)}
+            in_loop = lambda n: id(n.stmt if n.kind == "stmt" else n.owner) in inside
+            okk = store in first or ccfg.every_path(first, [ln], lambda n: n is store or (n is not ln and not in_loop(n)), "n")[0]
+            okk = okk and "items" in norm(il.iter) and cbf.params[1] in norm(il.iter)
+        chk.check(okk, "C09.R4", cbf, sp[0], "an entry of the cache can keep its chunk from an earlier call (the store is skipped on some path of the loop over the new inputs): rows between the stale cache and the next chunk are lost",
+                  site_text="cache_beyond: every entry of io is re-split into the cache in every pass", site={"function": cbf.qualname, "rule": "cache entry refreshed on every pass"})
     fl_ = [n for n in walk_body(cbf.node) if isinstance(n, ast.For) and n.orelse and any(isinstance(x, ast.Raise) for x in n.orelse)]
     chk.check(bool(fl_), "C09.R4", cbf, None, "cache alignment gives up silently", site_text="cache_beyond: for ... else: raise")
     up = [n for n, b in pfind(cbf.node, f"{cbf.params[2]} = {cbf.params[3]}[L_d].start")]
@@ -159,6 +173,8 @@ WITNESSES = [
       "self.cache_beyond(kwargs, cache_inputs_beyond, self.cached_input)\n        return result", "return result"),
     W("new input before cached input", "C09.R3", OVERLAP,
       "[self.cached_input[data_kind], chunk], self.allow_superrun", "[chunk, self.cached_input[data_kind]], self.allow_superrun"),
+    W("cache entry kept when it already starts at the split time", "C09.R4", OVERLAP,
+      "cached[data] = chunk.split(t=prev_split, allow_early_split=True)[1]", "if data in cached and cached[data].start == prev_split:\n                    continue\n                cached[data] = chunk.split(t=prev_split, allow_early_split=True)[1]"),
     W("cache keeps the left part", "C09.R4", OVERLAP,
       "cached[data] = chunk.split(t=prev_split, allow_early_split=True)[1]", "cached[data] = chunk.split(t=prev_split, allow_early_split=True)[0]"),
     W("alignment failure ignored", "C09.R4", OVERLAP,
